@@ -80,6 +80,28 @@ fn case<T: DeserializeOwned + Serialize + 'static>(sink: &mut Sink, r: &mut Rng,
         }
         sink.stat(&format!("{}/{}", ty, if reference.as_deref() == Some("reject") { "reject" } else { "accept" }));
     }
+    // near-valid documents: one leaf replaced by a neighbour of its value (other length in bytes or
+    // characters, other case, decorated, out of range ...). Whatever the verdict is, every channel and
+    // every spelling must give the same one.
+    let edits = if r.chance(1, 3) { crate::c05::leaf_edits(doc, r) } else { vec![] };
+    let take = edits.len().min(8);
+    for _ in 0..take {
+        let (path, d2) = &edits[r.below(edits.len())];
+        let texts = [("compact", d2.to_string()), ("respelled", spell(d2, r))];
+        let mut first: Option<String> = None;
+        for (sp, text) in &texts {
+            let ans = channels::<T>(text);
+            let replay = format!("decode {} {} {} // edited at {}", ty, sp, hex(text.as_bytes()), path);
+            for (ch, a) in &ans {
+                sink.oracle(a != "PANIC", "decoder panicked", &replay);
+                match &first {
+                    None => first = Some(a.clone()),
+                    Some(f) => sink.oracle(f == a, &format!("{}: {} decides or decodes differently than from_str on a near-valid document", ty, ch), &replay),
+                }
+            }
+        }
+        sink.stat(&format!("{}/edited/{}", ty, if first.as_deref() == Some("reject") { "reject" } else { "accept" }));
+    }
     // one op per document for the record (the model's claim is about the request table, see Props/C17)
     sink.op(&format!("strreq-all-owned {}", ty), "true", reference.as_deref() != Some("reject"));
 }
